@@ -930,6 +930,29 @@ package bpmn
 //@   ensures [at-most-one-close-and-only-of-done] forall p int :: old(evlen) <= p && p < evlen && isClose(ev(p)) ==> evch(ev(p)) == ps.done && p == evlen - 1
 //@   ensures [nothing-else] evlen <= old(evlen) + 2
 
+// Construction: every executable process is created with a tracer of its own, relayed to the set's tracer — the
+// watchers tell the processes apart by their tracers (a shared one would make every watcher stop at the first
+// process that finishes).
+//@ func NewProcessSet
+//@   prop C18
+//@   ensures [a-tracer-and-a-relay-per-executable-process] result1 == nil ==>
+//@             ndirect(code("tracing|NewTracer")) == old(ndirect(code("tracing|NewTracer"))) + len(executeProcesses) &&
+//@             ndirect(code("tracing|NewRelay")) == old(ndirect(code("tracing|NewRelay"))) + len(executeProcesses) &&
+//@             ndirect(code("NewProcess")) == old(ndirect(code("NewProcess"))) + len(executeProcesses)
+//@   ensures [one-member-per-executable-process] result1 == nil ==> result0 != nil && len(result0.executes) == len(executeProcesses)
+//@   loop 1 range executeProcesses
+//@     invariant ndirect(code("tracing|NewTracer")) == old(ndirect(code("tracing|NewTracer"))) + rk1 &&
+//@               ndirect(code("tracing|NewRelay")) == old(ndirect(code("tracing|NewRelay"))) + rk1 &&
+//@               ndirect(code("NewProcess")) == old(ndirect(code("NewProcess"))) + rk1 && len(executes) == rk1
+//@   loop 2 range *definitions.Collaborations()
+//@     invariant ndirect(code("tracing|NewTracer")) == old(ndirect(code("tracing|NewTracer"))) + len(executeProcesses) &&
+//@               ndirect(code("tracing|NewRelay")) == old(ndirect(code("tracing|NewRelay"))) + len(executeProcesses) &&
+//@               ndirect(code("NewProcess")) == old(ndirect(code("NewProcess"))) + len(executeProcesses) && len(executes) == len(executeProcesses)
+//@   loop 3 range *collaboration.MessageFlows()
+//@     invariant ndirect(code("tracing|NewTracer")) == old(ndirect(code("tracing|NewTracer"))) + len(executeProcesses) &&
+//@               ndirect(code("tracing|NewRelay")) == old(ndirect(code("tracing|NewRelay"))) + len(executeProcesses) &&
+//@               ndirect(code("NewProcess")) == old(ndirect(code("NewProcess"))) + len(executeProcesses) && len(executes) == len(executeProcesses)
+
 // StartAll: the message loop is started once; every executable process is started and gets exactly one watcher,
 // counted in the wait group before the watcher exists.
 //@ func (*ProcessSet).StartAll
@@ -967,12 +990,16 @@ package bpmn
 //@     iter ensures [instantiated-process-is-counted-before-it-is-watched]
 //@             count(WgAdd, mu(ps.wg)) - old(count(WgAdd, mu(ps.wg))) == count(Spawn, code("(*ProcessSet).tracerProcess")) - old(count(Spawn, code("(*ProcessSet).tracerProcess")))
 //@     iter ensures [one-message-taken-per-step] count(Recv, imessage) <= old(count(Recv, imessage)) + 1
+//@     iter ensures [a-failed-instantiation-starts-no-watcher] err != nil ==>
+//@             count(Spawn, code("(*ProcessSet).tracerProcess")) == old(count(Spawn, code("(*ProcessSet).tracerProcess"))) &&
+//@             count(WgAdd, mu(ps.wg)) == old(count(WgAdd, mu(ps.wg)))
 
 // What a member process does while it is created and started is abstracted to opaque events in the log of the
 // process set (assumed: a process holds no reference to the set, so it cannot touch the set's wait group, message
 // channel or completion signal, nor start the set's watchers).
 //@ func NewProcess
 //@   assumed
+//@   flag countcalls
 //@   flag emits opaque
 //@   flag allocs
 //@   ensures result1 == nil ==> result0 != nil && fresh(result0)
